@@ -337,6 +337,22 @@ fn apply_component<'a>(comp: &mut wirm::Component<'a>, mod_idx: u32, inj: &Inj) 
     }
 }
 
+/// Apply one injection to a module, or to the first module of a component (through the
+/// component iterator for the component paths).
+pub fn apply_any<'a>(module: Option<&mut wirm::Module<'a>>, comp: Option<&mut wirm::Component<'a>>, inj: &Inj) {
+    match (module, comp) {
+        (Some(m), _) => apply_module(m, inj),
+        (None, Some(c)) => {
+            if inj.path.is_component() {
+                apply_component(c, 0, inj)
+            } else {
+                apply_module(&mut c.modules[0], inj)
+            }
+        }
+        _ => {}
+    }
+}
+
 /// Order a plan so that, per function, instruction-level injections precede function-level
 /// ones (the iterators offer no way to leave a function-level mode).
 pub fn order_plan(plan: &mut Vec<Inj>) {
